@@ -99,6 +99,18 @@ class REnv:
     def declare(self, n, v):
         self.vars[n] = v
 
+    def names_where(self, pred):
+        """names (innermost binding wins) whose value satisfies pred: contracts find variables by ROLE, not by spelling"""
+        out, seen, e = [], set(), self
+        while e is not None:
+            for n, v in e.vars.items():
+                if n not in seen:
+                    seen.add(n)
+                    if pred(v):
+                        out.append(n)
+            e = e.parent
+        return out
+
 
 PAT_ENUM = 'Pattern'
 RS_FIELDS = {  # rust field name -> our field name
@@ -806,6 +818,16 @@ class RsInterp:
             raise Unsupported(f'{m} on {recv!r}')
         if isinstance(recv, UVec) and m == 'is_empty':
             return True
+        if m in ('map', 'and_then') and (recv is None or (isinstance(recv, tuple) and recv and recv[0] == 'Some')):
+            if recv is None:
+                return None
+            clo = self.deref(args[0])
+            if not isinstance(clo, RClosure):
+                raise Unsupported(f'Option::{m} with a non-closure argument')
+            r = self.call_closure(clo, [recv[1]])
+            return ('Some', r) if m == 'map' else r
+        if m == 'unwrap_or' and (recv is None or (isinstance(recv, tuple) and recv and recv[0] == 'Some')):
+            return self.deref(args[0]) if recv is None else recv[1]
         if m == 'is_none':
             return recv is None
         if m == 'is_some':
@@ -916,6 +938,13 @@ class RsInterp:
         if lc is not None:
             return lc.run(self, e, it, env)
         it = self.deref(it)
+        if isinstance(it, tuple) and it and it[0] == 'take' and (self.fn_stack[-1]['name'], 'take.for_each') in self.loop_contracts:
+            # `for x in iterator.take(n) { body }` is `iterator.take(n).for_each(|x| { body })` as long as the body neither breaks nor returns
+            if _has_jump(e['body']):
+                raise Unsupported('for over iterator.take(n) whose body breaks / continues / returns')
+            clo = RClosure({'k': 'closure', 'line': e.get('line'), 'params': [e['pat']],
+                            'body': {'k': 'blockexpr', 'line': e.get('line'), 'block': e['body']}, 'move': False}, env)
+            return self.take_for_each(it[1], it[2], clo, env)
         if isinstance(it, tuple) and it and it[0] == 'range' and isinstance(it[1], int) and isinstance(it[2], int):
             for i in range(it[1], it[2]):
                 e2 = REnv(env)
@@ -934,6 +963,18 @@ class RsInterp:
 
     def e_loop(self, e, env):
         raise Unsupported('loop')
+
+
+def _has_jump(n):
+    if isinstance(n, dict):
+        if n.get('k') in ('break', 'continue', 'return', 'try'):
+            return True
+        if n.get('k') == 'closure':
+            return False
+        return any(_has_jump(v) for v in n.values())
+    if isinstance(n, (list, tuple)):
+        return any(_has_jump(v) for v in n)
+    return False
 
 
 def _occurs(x, t):
